@@ -248,7 +248,20 @@ def run_real(target, budget, step_size, max_iter=None, record_classes=None):
             out = opt.optimize()
         except Exception as e:  # noqa: BLE001 -- the exception type is the observation
             err = type(e).__name__
-    return out, err, opt.trace, table
+    trace = list(opt.trace)
+    # the same inputs give the same result: the SAME optimizer object asked again (nothing was changed in between)
+    first = list(out.state) if out is not None else err
+    try:
+        again = list(opt.optimize().state)
+    except Exception as e:  # noqa: BLE001
+        again = type(e).__name__
+    if again != first:
+        REPEAT_DIFFS.append({"target": type(target).__name__, "initial_state": list(target.state), "budget": budget,
+                             "step_size": step_size, "first_optimize": first, "second_optimize_of_the_same_object": again})
+    return out, err, trace, table
+
+
+REPEAT_DIFFS: list = []
 
 
 def oracle_rows(table: dict):
@@ -575,6 +588,11 @@ def main(ck: Check):
                 if rw > -1:
                     fail("a single step from the result still has reward > -1", synthetic=sp, result=res, slot=i, reward=rw)
 
+    def report_repeats():
+        while REPEAT_DIFFS:
+            d = REPEAT_DIFFS.pop()
+            fail("optimize() of the same optimizer object gives another result the second time", **d)
+
     # ------------------------------------------------------------ one weapon-potential case
     def run_weapon(lname, armor, tiers, logic, refd):
         nonlocal evaluations, weapon_brute
@@ -762,10 +780,12 @@ def main(ck: Check):
             ck.notes.append(f"time cap reached after {n_done} step-wise cases of {len(cases)}")
             break
         run_stepwise(case)
+        report_repeats()
 
     # ============================================================ B. synthetic table targets (all paths)
     for k in range(120 if quick else 1500):
         run_synthetic(make_synthetic(rng))
+        report_repeats()
 
     # iterator and get_stepped_target, directly
     for n in range(0, 7):
